@@ -138,10 +138,14 @@ def run(tier, seed):
             cmp = {f: cmp_npz(os.path.join(jd, "final.npz"), os.path.join(results["fresh_" + f][0], "final.npz")) for f in FRESH}
         else:
             cmp = {f: (0, 0) for f in FRESH}
+        # the non-orthogonal options the equilibrium object holds at the end are what writeGridfile embeds in the file (hypnotoad_inputs_yaml):
+        # they must be those of a mesh built from scratch with the setting in force
+        rec = {f: int(st.get("final_nonorth") == results["fresh_" + f][1].get("final_nonorth")) for f in FRESH}
         ev.append({"ev": "Compare", "arg": "", "out": "ok", "exc": "", "dpos": {f: cmp[f][0] for f in FRESH}, "dgeo": {f: cmp[f][1] for f in FRESH},
-                   "user_options_unchanged": st.get("user_options_unchanged", 0)})
+                   "user_options_unchanged": st.get("user_options_unchanged", 0), "opts_recorded": rec})
         for e in ev:
             e.setdefault("dpos", {f: 0 for f in FRESH}); e.setdefault("dgeo", {f: 0 for f in FRESH}); e.setdefault("user_options_unchanged", 1)
+            e.setdefault("opts_recorded", {f: 1 for f in FRESH})
         traces.append({"id": len(traces) + 1, "name": n, "eqopts": "orth" if n == "orth" else "plain", "events": ev,
                        "history": jobs[n]["history"]})
     failed, res = validate(traces, d)
